@@ -575,11 +575,11 @@ func main() {
 	for _, uo := range []bool{false, true} {
 		for _, n := range []int{1, 2} {
 			name := concurrentName(uo, n)
-			q := -1
+			q, t := -1, -1
 			if n == 2 {
 				q = -2
 			}
-			h.Sched(name, q, -1, concurrentBody(name, uo, n), hx.StdOracle)
+			h.Sched(name, q, t, concurrentBody(name, uo, n), hx.StdOracle)
 		}
 	}
 	h.Seq("servers", func(s *hx.Seq) {
